@@ -150,7 +150,7 @@ def run_case(case):
             both = ~np.isnan(a) & ~np.isnan(b)
             add("states_compared", int(both.sum()))
             with np.errstate(all="ignore"):
-                okc = (np.abs(a - b) <= tol * (1 + np.abs(a))) | (a == b)
+                okc = ((np.abs(a - b) <= tol * (1 + np.abs(a))) & np.isfinite(a) & np.isfinite(b)) | (a == b)
             if np.any(both & ~okc):
                 i0 = tuple(int(x) for x in np.argwhere(both & ~okc)[0])
                 res["violations"].append({"key": f"rewriting_changes_solution:{name}", "what": f"rewriting '{name}': period {t}, state {dict(zip(names0, i0))}: {a[i0]!r} (base) vs {b[i0]!r} (rewritten); {int((both & ~okc).sum())} states differ"})
